@@ -21,6 +21,7 @@ import (
 	"flag"
 	"fmt"
 	"hash/fnv"
+	"math/bits"
 	"os"
 	"path/filepath"
 	"regexp"
@@ -59,7 +60,7 @@ type Sub[C any] struct {
 	N int
 	// MaxN caps the number of cases summed over shards whatever the scale (0 = no cap): for sub-checks
 	// whose cases are expensive (child processes), so that the thorough tier stays bounded.
-	MaxN int
+	MaxN  int
 	Gen   func(t *rapid.T) C
 	Check func(c C) (Info, error)
 	// Require lists classes that must have been hit at least once (vacuity guard).
@@ -275,6 +276,11 @@ func Run[C any](t *testing.T, s Sub[C]) {
 	}
 	_, nsh := Shard()
 	n := float64(s.N) * *flagScale / float64(nsh)
+	if bits.UintSize == 32 {
+		// shards built for a 32-bit target look for word-size dependence, not for volume: 64-bit
+		// arithmetic (SHA-512, rapid's own generators) is several times slower there
+		n *= 0.3
+	}
 	cnt := int(n)
 	if s.MaxN > 0 && cnt > s.MaxN/nsh {
 		cnt = s.MaxN / nsh
